@@ -7,7 +7,9 @@ import (
 	"sort"
 	"strings"
 	"testing"
+	"testing/synctest"
 	"time"
+	"verif/h/vsel"
 
 	"github.com/simpleiot/simpleiot/client"
 	"github.com/simpleiot/simpleiot/data"
@@ -333,12 +335,13 @@ func c07Body(t *testing.T, depth, devBound int, fixture bool, subset []int, slow
 	}
 }
 
-
 // c07StopBody: Manager.Stop at every point. The history runs with quiescence between operations,
 // except that the last operation returns as soon as it is acknowledged; from then on every
 // scheduler step offers "stop now" next to the pending deliveries (one deviation), and the
 // remaining deliveries are granted while the manager shuts down.
-func c07StopBody(t *testing.T, depth int, fixture bool, subset []int, slow bool) mc.Body {
+// delay: the last operation is issued k scheduler steps after the one before it (k = 0 by default, any other k is
+// one deviation), and deliveries are not reordered.
+func c07StopBody(t *testing.T, depth int, fixture bool, subset []int, slow bool, delay bool) mc.Body {
 	all := c07Ops()
 	var ops []c07Op
 	for _, i := range subset {
@@ -381,7 +384,20 @@ func c07StopBody(t *testing.T, depth int, fixture bool, subset []int, slow bool)
 			g.s.quiesce()
 			for d := 0; d < depth; d++ {
 				op := ops[x.Choose(len(ops), "op")]
-				last := d == depth-1
+				last := d >= depth-2 // the last two operations follow each other without waiting for quiescence
+				if delay && d == depth-1 && d > 0 {
+					g.s.fifo = true // strictly oldest first from here on: the operation and the manager's scan advance in turns
+					k := x.Deviate(41, "scheduler steps before the last operation")
+					for i := 0; i < k; i++ {
+						if granted, _ := g.s.step(0, "deliver"); !granted {
+							out = mc.Outcome{Trivial: true, Obs: "quiescent before the delay elapsed"}
+							return
+						}
+					}
+					if k > 0 {
+						x.Logf("(%d scheduler steps)", k)
+					}
+				}
 				var ok bool
 				f := func() error {
 					var e error
@@ -407,11 +423,27 @@ func c07StopBody(t *testing.T, depth int, fixture bool, subset []int, slow bool)
 					g.s.quiesce()
 				}
 			}
-			// deliveries continue (oldest first, or one reordering) until the explorer picks "stop now"
-			g.s.choose = true
+			// deliveries continue (oldest first, or one reordering) until the explorer picks "stop now";
+			// from here on a select of the manager that finds several ready cases takes the first in
+			// source order, or (one deviation) another one
+			vsel.SetHook(func(ready []int) int {
+				return x.Deviate(len(ready), fmt.Sprintf("manager select: ready cases %v", ready))
+			})
+			defer vsel.SetHook(nil)
+			g.s.choose = !delay
 			n := 0
 			for idle := 0; n < 10000 && idle < 30; n++ {
-				granted, extra := g.s.step(1, "stop now")
+				var granted bool
+				extra := -1
+				if delay {
+					synctest.Wait()
+					if x.Deviate(2, "stop now") == 1 {
+						break
+					}
+					granted, _ = g.s.step(0, "deliver")
+				} else {
+					granted, extra = g.s.step(1, "stop now")
+				}
 				if extra >= 0 {
 					break
 				}
@@ -466,8 +498,13 @@ func TestC07(t *testing.T) {
 			sd = 3
 		}
 		defer r.Explore(mc.Config{Name: fmt.Sprintf("stop-at-every-point-d%d", sd), Serial: true, SplitDepth: 2, DevBound: 1,
-			Rule: fmt.Sprintf("start state {group G, vNode N1 under G, custom parent P}, clients that keep running for 3 s after Stop; all histories of %d operations over 10 (create / delete N1 under the root, create N2 under P, delete / undelete G, delete / undelete N1 under G, add a child, point update, unrelated node created); the last operation returns as soon as it is acknowledged and Manager.Stop is issued before each of the scheduler steps that follow (one deviation: the stop point, or one reordering of two deliveries); the remaining deliveries are granted during the shutdown; oracle: Run returns within 6 s, no client is left running, never two clients per placement", sd)},
-			c07StopBody(t, sd, true, stopOps, true))
+			Rule: fmt.Sprintf("start state {group G, vNode N1 under G, custom parent P}, clients that keep running for 3 s after Stop; all histories of %d operations over 10 (create / delete N1 under the root, create N2 under P, delete / undelete G, delete / undelete N1 under G, add a child, point update, unrelated node created); the last two operations return as soon as they are acknowledged and Manager.Stop is issued before each of the scheduler steps that follow (one deviation: the stop point, one reordering of two deliveries, or another ready case in the manager's select, which is rewritten by vselgen so that the explorer and not the Go runtime picks among ready cases); the remaining deliveries are granted during the shutdown; oracle: Run returns within 6 s, no client is left running, never two clients per placement", sd)},
+			c07StopBody(t, sd, true, stopOps, true, false))
+		// fourth part: the same with the second operation issued at every point of the activity the first one caused
+		lateOps := []int{7, 0, 12, 9}
+		defer r.Explore(mc.Config{Name: "stop-with-late-operation-d2", Serial: true, SplitDepth: 3, DevBound: 2,
+			Rule: "start state as before; all pairs of operations over 4 (create N2 under P, create N1 under the root, unrelated node created, add a child to N1), each returning as soon as it is acknowledged; the second is issued k scheduler steps after the first (k = 0..40: one deviation), Manager.Stop before any later step (one deviation), another ready case in the manager's select (one deviation); at most 2 deviations per execution; deliveries strictly oldest first (so that the operation and the scan it races with advance in turns); same oracle"},
+			c07StopBody(t, 2, true, lateOps, true, true))
 		kids := []int{9, 10, 11, 5, 4, 13}
 		defer r.Explore(mc.Config{Name: "child-churn-d3", Serial: true, SplitDepth: 2, DevBound: 0,
 			Rule: "start state {group G, vNode N1 under G, custom parent P}; all histories of 3 operations over 6 (add / remove / re-add a child of N1 — the re-add is a bare tombstone=0 edge point —, point update, delete / undelete N1, a minute passes); same oracles (the client's children must be the node's live children)"},
@@ -487,7 +524,8 @@ func init() {
 	bodies["C07/child-churn-d3"] = func(t *testing.T) mc.Body { return c07Body(t, 3, 0, true, []int{9, 10, 11, 5, 4, 13}, false) }
 	bodies["C07/group-churn-slow-clients-d4"] = func(t *testing.T) mc.Body { return c07Body(t, 4, 0, true, churn, true) }
 	stopOps := []int{0, 1, 7, 3, 2, 5, 4, 9, 11, 12}
-	bodies["C07/stop-at-every-point-d2"] = func(t *testing.T) mc.Body { return c07StopBody(t, 2, true, stopOps, true) }
-	bodies["C07/stop-at-every-point-d3"] = func(t *testing.T) mc.Body { return c07StopBody(t, 3, true, stopOps, true) }
+	bodies["C07/stop-at-every-point-d2"] = func(t *testing.T) mc.Body { return c07StopBody(t, 2, true, stopOps, true, false) }
+	bodies["C07/stop-at-every-point-d3"] = func(t *testing.T) mc.Body { return c07StopBody(t, 3, true, stopOps, true, false) }
+	bodies["C07/stop-with-late-operation-d2"] = func(t *testing.T) mc.Body { return c07StopBody(t, 2, true, []int{7, 0, 12, 9}, true, true) }
 	bodies["C07/group-churn-slow-clients-d5"] = func(t *testing.T) mc.Body { return c07Body(t, 5, 0, true, churn, true) }
 }
